@@ -172,3 +172,12 @@ Proof. vm_compute. split; reflexivity. Qed.
 (* every rule name declared in linter/rules.go (regenerated) can be written in a rule list *)
 Lemma declared_rules_plain : forallb plain_rule Gen.LintGen.rule_names = true.
 Proof. vm_compute. reflexivity. Qed.
+
+(* a stack of directives on one statement: next-line r1, start r2 before it, falco-ignore r3 and a bare falco-ignore-next-line
+   further down in the list of another statement; the first statement raises r1 r2 r3 r4: only r4 survives *)
+Example ex_stack :
+  let m := {| leading := [bs "# falco-ignore-next-line r1"; bs "// falco-ignore-start r2"; bs "# falco-ignore-next-line r1, r1"];
+              trailing := [bs "/* falco-ignore r3 */"; bs "// falco-ignore r3"]; infix := [] |} in
+  map snd (report [Node WStmt mt true [] [] [] [blk [Node WStmt m false [bs "r1"; bs "r2"; bs "r3"; bs "r4"] [] [] []; simple "r1"; simple "r2"]]])
+  = map bs ["r4"; "r1"]%string.
+Proof. vm_compute. reflexivity. Qed.
